@@ -4,10 +4,18 @@ From Coq Require Import List String Bool QArith.
 Import ListNotations.
 Require Import Py Sem Term Ast Grammar Syntax.
 
+(* polyhedral_termlist_from_string reports a ZeroDivisionError raised by a constant-arithmetic parse action
+   as PolyhedralSyntaxException (repo commit de9f256) *)
+Definition api_error (e : err) : err :=
+  match e with
+  | Escape k => if String.eqb k "ZeroDivisionError" then SyntaxErr else e
+  | _ => e
+  end.
+
 Definition parse_terms (s : string) : M (list pterm) :=
   match Grammar.parse_expr s with
-  | Ok e => fold_expr e
+  | Ok e => match fold_expr e with inl ts => inl ts | inr x => inr (api_error x) end
   | Reject => raise SyntaxErr                        (* PolyhedralSyntaxException *)
-  | DivZero => raise (Escape "ZeroDivisionError")    (* escapes from the parse actions of constant arithmetic *)
+  | DivZero => raise SyntaxErr                       (* ZeroDivisionError inside parse_string, caught and re-raised *)
   | OutOfFuel => raise (Escape "fuel")
   end.
